@@ -577,6 +577,7 @@ func cmdRun(args []string) {
 		os.MkdirAll(filepath.Dir(path), 0o755)
 		os.WriteFile(path, b, 0o644)
 		violations = append(violations, fmt.Sprintf("VIOLATION property=%s replay=%s", *prop, path))
+		fmt.Printf("  property=%s class=process-crash: the worker process died on run %d: %.300s\n", *prop, j.Run, what)
 		newViol++
 	}
 
